@@ -42,6 +42,10 @@ type W struct {
 	Truncated   bool
 	Notes       []string
 	caseCounter int64
+	// crash-aware checks: periodic checkpoints let a restarted worker continue after the case that killed it
+	CkptDir    string
+	ResumeFrom int64
+	lastCkpt   time.Time
 }
 
 func NewW(id string, idx, n int, tier string, seed int64) *W {
@@ -54,7 +58,14 @@ func (w *W) Thorough() bool { return w.Tier == "thorough" }
 // Mine advances the global case counter and reports whether this worker owns the case.
 func (w *W) Mine() bool {
 	i := w.caseCounter
+	if w.CkptDir != "" && i >= w.ResumeFrom && time.Since(w.lastCkpt) > 250*time.Millisecond {
+		w.lastCkpt = time.Now()
+		w.Finish(w.CkptDir) // state after all cases < i
+	}
 	w.caseCounter++
+	if i < w.ResumeFrom {
+		return false // executed by an earlier attempt of this worker (results restored from its checkpoint)
+	}
 	if w.N > 1 && int(i%int64(w.N)) != w.Idx {
 		return false
 	}
@@ -169,6 +180,29 @@ func (w *W) Finish(dir string) error {
 		return err
 	}
 	return os.WriteFile(fmt.Sprintf("%s/w%d.json", dir, w.Idx), b, 0o644)
+}
+
+// Restore loads the checkpoint an earlier attempt of this worker left in dir and returns the case index to resume from.
+func (w *W) Restore(dir string) {
+	b, err := os.ReadFile(fmt.Sprintf("%s/w%d.json", dir, w.Idx))
+	if err != nil {
+		return
+	}
+	var r Result
+	if json.Unmarshal(b, &r) != nil {
+		return
+	}
+	w.Evals, w.Transitions, w.Skipped, w.Samples, w.Violations = r.Evals, r.Transitions, r.Skipped, r.Samples, r.Violations
+	if r.VioCount != nil {
+		w.VioCount = r.VioCount
+	}
+	if r.Extras != nil {
+		w.Extras = r.Extras
+	}
+	w.Notes = r.Notes
+	readSet(fmt.Sprintf("%s/w%d.states", dir, w.Idx), w.states)
+	readSet(fmt.Sprintf("%s/w%d.nontrivial", dir, w.Idx), w.nontrivial)
+	w.ResumeFrom = r.Cases
 }
 
 // Merged is the master's view over all workers.
